@@ -568,6 +568,27 @@ def check_dask(case, ctx: Ctx):
         got = ctx.call("dask.h1", pdask.h1, darr, "fixed_width", bin_width=w, dask_method=case["method"])
         also = ctx.call("physt.h1(dask array)", physt.h1, darr, "fixed_width", bin_width=w, adaptive=True)
         cmp_hist(ctx, also, ref, "physt.h1(dask array)")
+        cols = case.get("as_2d")
+        if cols and len(arr) >= cols:
+            # the same values as a 2-D dask array, chunked unevenly along both dimensions: h1 counts every element
+            k_ = (len(arr) // cols) * cols
+            a2 = np.nan_to_num(arr[:k_], nan=0.0).reshape(-1, cols)
+            rsz = [s_ for s_ in sizes if s_ >= 0]
+            rows = a2.shape[0]
+            rchunks, acc_ = [], 0
+            for s_ in rsz:
+                take = min(s_, rows - acc_)
+                rchunks.append(take)
+                acc_ += take
+            if acc_ < rows:
+                rchunks.append(rows - acc_)
+            cchunks = (cols,) if cols == 1 else (cols - 1, 1) if case.get("method") else (1, cols - 1)
+            d2 = da.from_array(a2, chunks=(tuple(rchunks), cchunks))
+            ref2 = ctx.call("h1(2-D array, adaptive)", physt.h1, a2, "fixed_width", bin_width=w, adaptive=True)
+            got2 = ctx.call("dask.h1(2-D dask array)", pdask.h1, d2, "fixed_width", bin_width=w, dask_method=case["method"])
+            a_, b_ = snapshot(ref2, stats=False, meta=False), snapshot(got2, stats=False, meta=False)
+            require(snap_equal(a_, b_), "dask_2d_differs", lambda: snap_diff(a_, b_))
+            ctx.label("h1_of_2d_dask_array")
     elif case["d"] == 2:
         arr2 = np.stack([arr, arr[::-1] * 0.5], axis=1)
         darr = da.from_array(arr2, chunks=(tuple(sizes), 2))
@@ -608,7 +629,8 @@ def dask_cases(draw, tier="quick"):
     return {"w": draw(st.sampled_from([0.5, 1.0, 0.25, 2.5, 0.1])), "xs": draw(st.lists(st.one_of(st.integers(-15, 15).map(float), st.floats(-15, 15, allow_nan=False)), min_size=n, max_size=n)),
             "chunks": draw(st.lists(st.integers(1, 10), min_size=1, max_size=6)), "d": draw(st.sampled_from([1, 1, 2, 2, 3])),
             "form": draw(st.sampled_from(["dd", "h2", "columns", "split_columns"])),
-            "empty_chunks": draw(st.one_of(st.just([]), st.just([]), st.lists(st.integers(0, 6), min_size=1, max_size=2))), "method": draw(st.sampled_from([None, "thread"])),
+            "empty_chunks": draw(st.one_of(st.just([]), st.just([]), st.lists(st.integers(0, 6), min_size=1, max_size=2))),
+            "as_2d": draw(st.sampled_from([None, 2, 3, 3])), "method": draw(st.sampled_from([None, "thread"])),
             "nan_at": draw(st.lists(st.integers(0, 40), max_size=3)), "nan_run": draw(st.one_of(st.none(), st.integers(0, 40)))}
 
 
